@@ -655,7 +655,7 @@ def correspond(run, corr, first_part=()):
     run.drift["osmocon.c"] = vf.src_hash_c(os.path.join(vf.REPO, "src/host/osmocon/osmocon.c"),
                                            ["handle_sercomm_write", "hdlc_send_to_phone", "handle_buffer", "handle_read", "serial_read"])
     # 1. scripts of msgb operations
-    scripts = [gen_script(rng) for _ in range(run.scale(2000, 40000))]
+    scripts = [gen_script(rng) for _ in range(run.scale(2000, 20000))]
     lines = [s[0] for s in scripts]
     a = impl(run, "msgb", lines)
     b = vf.run_driver(lines)
@@ -699,7 +699,7 @@ def correspond(run, corr, first_part=()):
                                            "impl": x[max(0, k - 80):k + 200], "model": m[max(0, k - 80):k + 200]})
     # 4. osmocon: write path (complete and short writes), send bound, read path
     oc = []
-    for _ in range(run.scale(400, 5000)):
+    for _ in range(run.scale(400, 3000)):
         oc.append(gen_write_history(rng, complete=rng.random() < 0.5))
     for ln in (0, 1, 255, 256, 511, 512, 513, 514, 600, 1000, 70000, -1, -5):
         for extra in (0, 1, -1):
@@ -708,7 +708,7 @@ def correspond(run, corr, first_part=()):
                        {"kind": "host-send-bound", "len": ln, "have": n}))
     for d in (0, 4, 127, 128, 129, 200, 255):
         oc.append(("oc.run send %d 2 4142 wr f wr f" % d, {"kind": "host-send-dlci", "dlci": d}))
-    for _ in range(run.scale(300, 5000)):
+    for _ in range(run.scale(300, 3000)):
         oc.append(gen_read_history(rng, in_property=rng.random() < 0.4))
     for p in PROMPTS:
         for pre in ("", "7e0503417e", "1bf602"):
@@ -773,7 +773,7 @@ def oracle(run, corr, deep):
     # 1. the buffer contract on the scripts of the correspondence run (+ more when something broke)
     scripts = list(getattr(run, "c06m_scripts", []))
     if deep or not scripts:
-        extra = [gen_script(run.rng) for _ in range(run.scale(6000, 40000))]
+        extra = [gen_script(run.rng) for _ in range(run.scale(6000, 20000))]
         ea = impl(run, "msgb", [s[0] for s in extra])
         scripts += list(zip(extra, ea))
     for (line, exp, mem), ans in scripts:
@@ -808,8 +808,16 @@ def oracle(run, corr, deep):
     fixed = [("oc.run send 5 1 41 wr 2 wr f send 5 1 42 wr f wr f",
               {"kind": "host-write", "complete": False,
                "ops": [("send", 5, [0x41]), ("wr", 2), ("wr", "f"), ("send", 5, [0x42]), ("wr", "f"), ("wr", "f")]})]
+    # small in-property read histories first, so that a broken read path is reported on a short input
+    for line, expect in (("oc.run reg 5 hdlc 1 in 7e0503417e srd", [(5, [0x41])]),
+                         ("oc.run reg 5 hdlc 1 in 7e0503417e7e0503427e srd", [(5, [0x41]), (5, [0x42])]),
+                         ("oc.run reg 5 hdlc 1 chunk 1 in 7e0503417e7e0503427e srd", [(5, [0x41]), (5, [0x42])]),
+                         ("oc.run reg 5 hdlc 1 in 7e05 srd in 03417e srd in 7e05037d5e7e srd", [(5, [0x41]), (5, [0x7E])]),
+                         ("oc.run reg 5 reg 10 hdlc 1 in 7e0a0341424344454647487e7e0503417e rd rd rd rd rd rd rd rd rd rd rd rd rd",
+                          [(10, [0x41, 0x42, 0x43, 0x44, 0x45, 0x46, 0x47, 0x48]), (5, [0x41])])):
+        fixed.append((line, {"kind": "host-read", "expect": expect, "pure": True}))
     fa = impl(run, "osmocon", [f[0] for f in fixed])
-    oc += list(zip(fixed, fa))
+    oc = list(zip(fixed, fa)) + oc
     for (line, case), ans in oc:
         if case["kind"] == "host-write":
             judged += 1
